@@ -501,11 +501,52 @@ def run(ctx):
                     continue
                 if leaks:
                     rids = ["C10.a"] + (["C06.g"] if p.is_subclass(fn.cls, "CHPAsset") else [])
+                    # what is written: the foreign sources of the stored values identify the finding (a known entry for "the wrapper's own
+                    # window is written into the inner assets" must not cover "state of the grid is written there")
+                    src = set()
+                    nested = {g.name: g for g in p.all_functions() if g.parent is fn}
+                    pnames = {q.name for q in fn.params if q.name not in ("self", "cls")}
+
+                    def atoms(e, at, depth=0, bound=()):
+                        for x in au.walk_local(e):
+                            if isinstance(x, ast.Attribute):
+                                pth = au.path(x)
+                                if pth and pth.startswith("self.") and not pth.startswith(root) and not isinstance(p.parent(x), ast.Attribute) \
+                                        and not (isinstance(p.parent(x), ast.Call) and p.parent(x).func is x):
+                                    src.add(pth)
+                                elif pth and not isinstance(p.parent(x), ast.Attribute) and au.base_name(x) in pnames and au.base_name(x) not in bound:
+                                    src.add("param " + pth)
+                            elif isinstance(x, ast.Name) and isinstance(x.ctx, ast.Load) and x.id not in bound:
+                                if x.id in pnames and not isinstance(p.parent(x), ast.Attribute):
+                                    src.add("param " + x.id)
+                                elif x.id in nested and depth < 3:
+                                    g = nested[x.id]
+                                    gb = tuple(q.name for q in g.params)
+                                    for st2 in au.walk_stmts(g.body):
+                                        for y in au.walk_own(st2):
+                                            if y is not st2 or True:
+                                                pass
+                                        atoms_stmt(st2, depth + 1, bound + gb)
+                                elif depth < 3 and x.id not in pnames and x.id not in nested:
+                                    r = ctx.resolve(fn, x, at, depth=1)
+                                    if r is not x:
+                                        atoms(r, at, depth + 1, bound)
+
+                    def atoms_stmt(st2, depth, bound):
+                        for y in au.walk_own(st2):
+                            if isinstance(y, (ast.Attribute, ast.Name)) and not isinstance(p.parent(y), ast.Attribute):
+                                atoms(y, st2, depth, bound)
+
+                    for m in leaks:
+                        if m.value is None or m.via is not None:
+                            src.add("in-place call" if m.value is None else "via %s" % getattr(m.via, "qualname", m.via))
+                            continue
+                        atoms(m.value, m.node)
                     for rid in rids:
                         ctx.ob(rid, fn, "self.%s" % attr, False,
                                "an object kept from the constructor (user data, or another asset) is rewritten with call-dependent "
                                "state: " + "; ".join("%s: %s" % (p.where(m.node), au.short(m.node, 90)) for m in leaks[:4]),
-                               node=leaks[0].node)
+                               node=leaks[0].node, key="self.%s <- %s" % (attr, ", ".join(sorted(src)) or "?"))
                 elif own:
                     ctx.note("C10.a", fn, "self.%s (idempotent)" % attr, "; ".join(au.short(m.node, 70) for m in own[:3]))
     ctx.require(n_public >= 40, "fewer than 40 public functions analysed")
